@@ -400,4 +400,40 @@ example : get (runCode [.count 0 9007199254740993]) (0 : Nat) = some 90071992547
 example : get (runCode [.count 0 9007199254740995]) (0 : Nat) = some 9007199254740996 := by decide
 example : csum (0 : Nat) [.register 0 .counter, .increment 0, .count 0 41, .increment 1] = 42 := by decide
 
+/-! ## concurrent first registration -/
+
+/-- with `Register` keeping an existing entry, a registration commutes with every atomic add -/
+theorem vstep_reg_add_comm {κ : Type} [DecidableEq κ] (q k : κ) (ty : MType) (v : View) (x : Op κ)
+    (hx : x.isAdd = true) :
+    vstep true q (vstep true q v (.register k ty)) x =
+      vstep true q (vstep true q v x) (.register k ty) := by
+  obtain ⟨n, hx⟩ := add_form true q x hx
+  obtain ⟨t, c, g, u, s⟩ := v
+  rcases hx with ⟨d, hx⟩ | ⟨d, hx⟩ <;> simp only [hx] <;>
+    by_cases hk : k = q <;> by_cases hn : n = q <;> cases ty <;> cases c <;> cases u <;>
+    simp [vstep, cadd, uadd, initV, orZero, hk, hn]
+
+/-- **concurrent_first_registration_totals.**  Goroutines that each `Register(k, ty)` and then
+`Increment`/`Count`/`Up`/`Down` (on any names) may be interleaved in any way: two interleavings
+(permutations of the same multiset of atomic steps) leave every `Get` with the same answer — so a
+counter first registered by `g` goroutines that make `n` increments each reads `g·n`.  This needs
+`Register` to be one atomic `LoadOrStore`; a `Load` followed by `Store` is two steps and is not
+covered (it loses updates). -/
+theorem concurrent_first_registration_totals {κ : Type} [DecidableEq κ] (s : St κ) (k : κ) (ty : MType)
+    (l₁ l₂ : List (Op κ)) (hp : l₁.Perm l₂)
+    (h : ∀ op ∈ l₁, op.isAdd = true ∨ op = Op.register k ty) (q : κ) :
+    get (runFrom true s l₁) q = get (runFrom true s l₂) q := by
+  rw [get_eq_vget, get_eq_vget, view_runFrom, view_runFrom]
+  rw [foldl_perm_of_comm (vstep true q) (fun op => op.isAdd = true ∨ op = Op.register k ty) ?_ hp h]
+  intro b x y hx hy
+  rcases hx with hx | hx <;> rcases hy with hy | hy
+  · exact vstep_comm true q b x y hx hy
+  · subst hy; exact (vstep_reg_add_comm q k ty b x hx).symm
+  · subst hx; exact vstep_reg_add_comm q k ty b y hy
+  · subst hx; subst hy; rfl
+
+example : get (runFixed [.register 0 .counter, .increment 0, .increment 0, .register 0 .counter, .increment 0, .increment 0]) (0 : Nat) = some 4 := by decide
+example : get (runFixed [.register 0 .counter, .register 0 .counter, .increment 0, .increment 0, .increment 0, .increment 0]) (0 : Nat) = some 4 := by decide
+example : get (runFixed [.register 0 .counter, .increment 0, .register 0 .counter, .increment 0, .increment 0, .increment 0]) (0 : Nat) = some 4 := by decide
+
 end Refinery.Props.C33
